@@ -1168,4 +1168,149 @@ func checkC19(c *Check) {
 		}
 		c.Hold("R7", "connectionForDomain:connection-owned", r.FI.Decl.Pos(), msg == "", msg)
 	}
+	c19NonBlocking(c)
+	c19UsablePure(c)
+}
+
+// R8: the pool never waits on a bucket. A bucket channel is bounded (the idle-count limit, possibly 0); a send that
+// waits for room or a receive that waits for an element – inside the critical section or not – waits for another
+// goroutine that may need the pool's mutex first: Get, Return, CleanUp and Close then hang behind it for ever. Every
+// send and every receive on a bucket channel is therefore a case of a select with a default branch; the only plain
+// form is the drain `for conn := range ch` of a channel the same function has closed.
+func c19NonBlocking(c *Check) {
+	p := c.P
+	c.Rule("R8", "pool: no operation on a bucket channel can block – a send or receive is a case of a select that has a default branch, a range over a bucket follows the close of that channel in the same function", 3)
+	pk := p.Pkg(poolRel)
+	if pk == nil {
+		c.Fail("R8", "package", token.NoPos, "anchor unresolved")
+		return
+	}
+	info := pk.TypesInfo
+	isBucket := func(e ast.Expr) bool {
+		t := info.TypeOf(e)
+		if t == nil {
+			return false
+		}
+		ch, ok := t.Underlying().(*types.Chan)
+		if !ok {
+			return false
+		}
+		n := namedOf(ch.Elem())
+		return n != nil && objName(n.Obj()) == "Conn"
+	}
+	n := 0
+	p.AllFuncs([]*packagesPkg{pk}, func(fi *FuncInfo) {
+		if strings.HasSuffix(p.Fset.Position(fi.Decl.Pos()).Filename, "_test.go") {
+			return
+		}
+		// comm statements of selects with a default
+		safe := map[ast.Node]bool{}
+		ast.Inspect(fi.Decl.Body, func(x ast.Node) bool {
+			sel, ok := x.(*ast.SelectStmt)
+			if !ok {
+				return true
+			}
+			hasDefault := false
+			for _, cl := range sel.Body.List {
+				if cc := cl.(*ast.CommClause); cc.Comm == nil {
+					hasDefault = true
+				}
+			}
+			if hasDefault {
+				for _, cl := range sel.Body.List {
+					if cc := cl.(*ast.CommClause); cc.Comm != nil {
+						ast.Inspect(cc.Comm, func(y ast.Node) bool {
+							if y != nil {
+								safe[y] = true
+							}
+							return true
+						})
+					}
+				}
+			}
+			return true
+		})
+		var closed []string
+		ast.Inspect(fi.Decl.Body, func(x ast.Node) bool {
+			if call, ok := x.(*ast.CallExpr); ok {
+				if id, isID := call.Fun.(*ast.Ident); isID && id.Name == "close" && len(call.Args) == 1 {
+					closed = append(closed, exprStr(call.Args[0]))
+				}
+			}
+			return true
+		})
+		ast.Inspect(fi.Decl.Body, func(x ast.Node) bool {
+			bad := ""
+			var pos token.Pos
+			switch s := x.(type) {
+			case *ast.SendStmt:
+				if isBucket(s.Chan) {
+					n++
+					pos = s.Pos()
+					if !safe[s] {
+						bad = "a send on a bucket channel that waits for room (" + exprStr(s.Chan) + " <- …)"
+					}
+				}
+			case *ast.UnaryExpr:
+				if s.Op == token.ARROW && isBucket(s.X) {
+					n++
+					pos = s.Pos()
+					if !safe[s] {
+						bad = "a receive from a bucket channel that waits for an element (<-" + exprStr(s.X) + ")"
+					}
+				}
+			case *ast.RangeStmt:
+				if isBucket(s.X) {
+					n++
+					pos = s.Pos()
+					ok := false
+					for _, cl := range closed {
+						if cl == exprStr(s.X) {
+							ok = true
+						}
+					}
+					if !ok {
+						bad = "a range over a bucket channel this function does not close (it waits for elements for ever)"
+					}
+				}
+			}
+			if pos.IsValid() {
+				c.SawFunc(fi.Name())
+				c.Hold("R8", refName(fi.Obj)+":chanop"+itoa(n), pos, bad == "", bad+": the goroutine that would make it proceed may be waiting for the pool's mutex – every later Get, Return, CleanUp and Close hangs, the connection is neither stored nor closed")
+			}
+			return true
+		})
+	})
+	if n == 0 {
+		c.Fail("R8", "ops", token.NoPos, "undecided: no bucket channel operation found")
+	}
+}
+
+// R9: Usable is a question. The pool (Get) and the delivery (Close) close a connection that answers "no" themselves;
+// an implementation that also closes it – to get rid of a dead socket early – makes that the second close: the
+// client is nil by then and Close dereferences it, in a goroutine nobody recovers.
+func c19UsablePure(c *Check) {
+	p := c.P
+	c.Rule("R9", "implementations of the pool's Conn.Usable only answer: nothing they call closes the connection (the callers close an unusable connection themselves – exactly once)", 1)
+	n := 0
+	closes := func(info *types.Info, call *ast.CallExpr) bool {
+		switch methodName(call) {
+		case "Close", "DirectClose", "Quit":
+			return true
+		}
+		return false
+	}
+	p.AllFuncs(p.ServerPkgs(), func(fi *FuncInfo) {
+		sig := fi.Obj.Type().(*types.Signature)
+		if refName(fi.Obj) != "Usable" || sig.Recv() == nil || sig.Params().Len() != 0 || sig.Results().Len() != 1 || !isBoolType(sig.Results().At(0).Type()) {
+			return
+		}
+		n++
+		c.SawFunc(fi.Name())
+		bad := p.MayCall(fi, closes, 2, nil)
+		c.Hold("R9", fi.Pkg.Types.Name()+"."+recvTypeName(fi.Decl)+".Usable", fi.Decl.Pos(), !bad, "Usable closes the connection it was asked about: pool.Get and remoteDelivery.Close close an unusable connection again – the second Close runs on a connection whose client is already nil (nil dereference, in pool.Get on a bare goroutine: the server process dies)")
+	})
+	if n == 0 {
+		c.Fail("R9", "Usable", token.NoPos, "undecided: no implementation of Usable found")
+	}
 }
